@@ -25,6 +25,12 @@ class ConfigRejected(Exception):
 def build_model(spec):
     rng = random.Random(spec['model_seed'])
     pdt = kh.DT[spec['cfg']['pdt']]
+    if spec.get('mixed_cast'):
+        a, b, c = rng.randint(2, 4), rng.randint(2, 4), rng.randint(1, 3)
+        model = torch.nn.Sequential(torch.nn.Linear(a, b).float(), torch.nn.Tanh(), gen.Cast(torch.float64), torch.nn.Linear(b, c).double())
+        g = torch.Generator().manual_seed(spec['model_seed'] + 1)
+        gen.init_params(model, g)
+        return model, (a,), dict(desc=[f'lin{a}->{b}:f32', 'cast64', f'lin{b}->{c}:f64'])
     model, in_shape, info = gen.runnable_model(rng, dtype=pdt, allow_conv=spec.get('allow_conv', True),
                                                unsupported=spec.get('unsupported', True), small=True)
     g = torch.Generator().manual_seed(spec['model_seed'] + 1)
